@@ -152,10 +152,34 @@ def load_known():
     return json.loads(p.read_text())
 
 
+import re as _re
+
+_TOK = _re.compile(r"[A-Za-z_][A-Za-z_0-9]*|\d+\.?\d*|\S")
+
+
+def structural_key(text):
+    """Construct text with local variable names abstracted away (cp.max(cp.abs(num) / denom) → cp.max(cp.abs(_) / _)):
+    identifiers that are not a module prefix, an attribute/function name or a keyword-argument name become `_`.
+    Keys findings by the shape of the construct, so that renaming a local does not turn a known finding into a new one."""
+    toks = _TOK.findall(str(text))
+    out = []
+    for i, t in enumerate(toks):
+        if _re.match(r"[A-Za-z_]", t):
+            nxt = toks[i + 1] if i + 1 < len(toks) else ""
+            prv = toks[i - 1] if i else ""
+            if nxt in (".", "(") or prv == "." or (nxt == "=" and (toks[i + 2] if i + 2 < len(toks) else "") != "="):
+                out.append(t)
+            else:
+                out.append("_")
+        else:
+            out.append(t)
+    return " ".join(out)
+
+
 def match_known(o, known):
     for k in known.get("known", []):
         if k["property"] == o.prop and k["rule"] == o.rule and k.get("entry", o.entry) == o.entry \
-                and " ".join(k["construct"].split()) == " ".join(str(o.construct).split()):
+                and structural_key(k["construct"]) == structural_key(o.construct):
             return k
     return None
 
